@@ -8,7 +8,7 @@ claims={
  'C03':("bcast","in-critical-section channel/generation invariant, Wait return rules, quiescence oracle, spin detection"),
  'C04':("routine","step invariant (active instances), waitReturn channels probed after every scheduler step"),
  'C05':("routine","checks at the return of every superseding call, quiescence oracle on the surviving instance (context tag, state)"),
- 'C06':("keyedset","reference model of the key set compared per call and at settle points, deadline intervals, stalled-timer variant"),
+ 'C06':("keyedset","reference model of the key set compared per call and at settle points, deadline intervals, stalled-timer variant, owner-side cancellation of the container context"),
  'C07':("keyedrun+keyedset","per-incarnation instance exclusion, cancellation on removal, retry obligation at quiescence after virtual time passed"),
  'C08':("refcount","exactly-once release counters, in-release-function checks, quiescence leak check, final drain"),
  'C09':("refcount","resolver exclusion, panic/deadlock detection, quiescence oracle on resolved/delivered state, released() obligations"),
